@@ -5,8 +5,8 @@ import Juniper.Proofs.TreeOps
 # Access-level model (C01, concurrent clause): the hypotheses of the property, packaged
 
 `goroutines puts reads`: one goroutine per `Put k_j v_j`, then the readers. `ConcHyp`: the `k_j` are
-pairwise inequivalent and present, every reader's key is inequivalent to every `k_j`, iterators are
-parked on a live slot holding their key, node objects are pairwise distinct. `setup_of_hyp` turns this
+pairwise inequivalent and present, every `Get`/`Contains` key is inequivalent to every `k_j`, every stored key
+inside both bounds of a range reader is inequivalent to every `k_j`, node objects are pairwise distinct. `setup_of_hyp` turns this
 into the `Setup` the invariant proofs use. `putAll_refines`: the sequential result in terms of the
 ideal sorted map. `hasRace_sound`: the executable race check.
 -/
@@ -19,6 +19,21 @@ variable {K V : Type} {cmp : K → K → Int}
 def goroutines (puts : List (K × V)) (reads : List (Op K V)) : List (Op K V) :=
   puts.map (fun p => (.put p.1 p.2 : Op K V)) ++ reads
 
+/-- every key stored in some node object of the tree (for a well-formed tree: the keys of `toList`) -/
+def storedKeys : Node K V → List K
+  | .mk _ kvs kids => kvs.map (·.1) ++ (kids.map storedKeys).flatten
+
+theorem Sub.key_mem {x y : Node K V} (h : Sub x y) {kv : K × V} (hkv : kv ∈ y.kvs) : kv.1 ∈ storedKeys x := by
+  induction h with
+  | refl x =>
+    obtain ⟨id, kvs, kids⟩ := x
+    simp only [storedKeys, List.mem_append, List.mem_map]
+    exact Or.inl ⟨kv, hkv, rfl⟩
+  | @kid x c y hm _ ih =>
+    obtain ⟨id, kvs, kids⟩ := x
+    simp only [storedKeys, List.mem_append, List.mem_flatten, List.mem_map]
+    exact Or.inr ⟨storedKeys c, ⟨c, hm, rfl⟩, ih hkv⟩
+
 structure ConcHyp (cmp : K → K → Int) (t : Tree K V) (puts : List (K × V)) (reads : List (Op K V)) : Prop where
   /-- the comparator is a strict weak order (the documented contract) -/
   sw : StrictWeak cmp
@@ -28,11 +43,55 @@ structure ConcHyp (cmp : K → K → Int) (t : Tree K V) (puts : List (K × V)) 
   distinct : puts.Pairwise fun p q => cmp p.1 q.1 ≠ 0
   /-- … that are already present -/
   present : ∀ p ∈ puts, contains cmp t p.1 = true
-  /-- the other goroutines only read, and only keys inequivalent to every Put's key -/
-  readers : ∀ r ∈ reads, r.isPut = false ∧ ∀ p ∈ puts, cmp p.1 r.key ≠ 0
-  /-- an iterator is parked on a live slot that holds (a key equivalent to) its key -/
-  parked : ∀ x i g ck, (.iter x i g ck : Op K V) ∈ reads →
-    ∃ kv, (findNode x t.root).bind (fun y => y.kvs[i]?) = some kv ∧ cmp ck kv.1 = 0
+  /-- the other goroutines only read: `Get`, `Contains`, `Range` / `RangeReverse` / `Iterate` with any number of `Next` calls -/
+  readers : ∀ r ∈ reads, r.isPut = false
+  /-- a `Get` / `Contains` asks for a key inequivalent to every Put's key -/
+  searchKeys : ∀ r ∈ reads, r.isSearch = true → ∀ p ∈ puts, cmp p.1 r.key ≠ 0
+  /-- a range reader: every key stored in the tree that lies inside both of its bounds — the far bound is the
+  iterator's in-range predicate `inRangeOf`, the near bound what its seek does not step over, `nearOp`; both are `true`
+  for an unbounded end — is inequivalent to every Put's key -/
+  rangeKeys : ∀ r ∈ reads, r.isSearch = false → ∀ p ∈ puts, ∀ k' ∈ storedKeys t.root,
+    inRangeOf cmp r k' = true → nearOp cmp r k' = true → cmp p.1 k' ≠ 0
+  /-- a range reader is one that `Range` / `RangeReverse` build (`scanOf`): it seeks in its own direction -/
+  rangeWF : ∀ r ∈ reads, r.isSearch = false → ScanWF r
+  /-- with range readers present the tree satisfies the tree invariant (balanced, strictly sorted, `Len` = number of
+  entries; every tree reachable from the empty one does: `Proofs.Tree.inv_runMuts`) -/
+  rangeInv : (∃ r ∈ reads, r.isSearch = false) → Inv cmp t
+
+/-- the near bound as the seek sees it, in the shape of C01's `aboveLo` / `belowHi` -/
+theorem near_ge (hc : StrictWeak cmp) (key k : K) : nearOf cmp .ge key k = decide (0 ≤ cmp k key) := by
+  have h1 := hc.anti k key
+  simp only [nearOf, seekFirstGreaterOrEqualStep]
+  by_cases h : cmp key k > 0 <;> by_cases h' : 0 ≤ cmp k key <;> simp [h, h'] <;> omega
+theorem near_gt (hc : StrictWeak cmp) (key k : K) : nearOf cmp .gt key k = decide (0 < cmp k key) := by
+  have h1 := hc.anti key k
+  simp only [nearOf, seekFirstGreaterStep]
+  by_cases h : cmp key k ≥ 0 <;> by_cases h' : 0 < cmp k key <;> simp [h, h'] <;> omega
+theorem near_le (hc : StrictWeak cmp) (key k : K) : nearOf cmp .le key k = decide (cmp k key ≤ 0) := by
+  have h1 := hc.anti key k
+  simp only [nearOf, seekLastLessOrEqualStep]
+  by_cases h : cmp key k < 0 <;> by_cases h' : cmp k key ≤ 0 <;> simp [h, h'] <;> omega
+theorem near_lt (hc : StrictWeak cmp) (key k : K) : nearOf cmp .lt key k = decide (cmp k key < 0) := by
+  have h1 := hc.anti k key
+  simp only [nearOf, seekLastLessStep]
+  by_cases h : cmp key k ≤ 0 <;> by_cases h' : cmp k key < 0 <;> simp [h, h'] <;> omega
+
+/-- **What `Range(lo, hi)` / `RangeReverse(lo, hi)` are as reader operations, in terms of the bounds**: the two regenerated
+`switch` tables make them a range reader that seeks in its own direction and whose far bound (the iterator's in-range
+predicate) and near bound (what the seek does not step over) together are exactly `aboveLo lo ∧ belowHi hi` — the
+interval of C01's ideal `srange`. -/
+theorem scanOf_bounds (hc : StrictWeak cmp) (rev : Bool) (lo hi : Bound K) (n : Nat) (hl : lo.kind ≠ none) (hh : hi.kind ≠ none) :
+    ∃ r : Op K V, scanOf rev lo hi n = some r ∧ r.isSearch = false ∧ ScanWF r ∧
+      (∀ k, (inRangeOf cmp r k && nearOp cmp r k) = (aboveLo cmp lo k && belowHi cmp hi k)) := by
+  obtain ⟨lk, hlk⟩ := Option.ne_none_iff_exists'.mp hl
+  obtain ⟨hk, hhk⟩ := Option.ne_none_iff_exists'.mp hh
+  cases rev <;> cases lk <;> cases hk
+  all_goals
+    simp only [scanOf, rangeSeek, rangeStop, rrangeSeek, rrangeStop, pickSide, hlk, hhk, Bool.false_eq_true, if_false, if_true]
+    refine ⟨_, rfl, rfl, rfl, fun k => ?_⟩
+    simp only [inRangeOf, nearOp, near_ge hc, near_gt hc, near_le hc, near_lt hc, evalOp, aboveLo, belowHi, hlk, hhk,
+      Bool.and_true, Bool.true_and, ge_iff_le, gt_iff_lt]
+    try (first | rfl | exact Bool.and_comm _ _ | (simp [nearOf]))
 
 theorem zip_sub {R : Node K V} : ∀ (up : List (Node K V × Nat)) (y : Node K V), Zip R y up → Sub R y := by
   intro up
@@ -86,27 +145,15 @@ theorem goroutines_of_put {puts : List (K × V)} {reads : List (Op K V)} {p : K 
 
 theorem setup_of_hyp {t : Tree K V} {puts : List (K × V)} {reads : List (Op K V)}
     (h : ConcHyp cmp t puts reads) : Setup cmp t (goroutines puts reads) := by
-  have hr : ∀ r ∈ reads, r.isPut = false := fun r hm => (h.readers r hm).1
-  refine ⟨h.sw, h.nodup, ?_, ?_⟩
+  have hr : ∀ r ∈ reads, r.isPut = false := h.readers
+  refine ⟨h.sw, h.nodup, ?_, ?_, ?_, ?_⟩
   · intro i op ho
-    refine ⟨?_, ?_⟩
-    · rintro k v rfl
-      have hp := goroutines_put_mem hr ho
-      have := h.present (k, v) (List.mem_of_getElem? hp)
-      rw [slotOf_isSome]; exact this
-    · rintro x j g ck rfl
-      rcases goroutines_get ho with ⟨p, _, he⟩ | ⟨_, hm⟩
-      · cases he
-      · obtain ⟨kv, hkv, he⟩ := h.parked x j g ck hm
-        cases hf : findNode x t.root with
-        | none => rw [hf] at hkv; cases hkv
-        | some y =>
-          rw [hf] at hkv
-          simp only [Option.bind_some] at hkv
-          obtain ⟨hs, hid⟩ := sub_of_findNode hf
-          obtain ⟨hlt, hval⟩ := List.getElem?_eq_some_iff.mp hkv
-          exact ⟨y, hs, hid, hlt, by rw [hval]; exact he⟩
-  · intro i j hij k v o hoi hoj
+    refine ⟨?_⟩
+    rintro k v rfl
+    have hp := goroutines_put_mem hr ho
+    have := h.present (k, v) (List.mem_of_getElem? hp)
+    rw [slotOf_isSome]; exact this
+  · intro i j hij k v o hoi hoj hsr
     have hpi := goroutines_put_mem hr hoi
     obtain ⟨hli, hvi⟩ := List.getElem?_eq_some_iff.mp hpi
     rcases goroutines_get hoj with ⟨q, hq, rfl⟩ | ⟨_, hm⟩
@@ -119,7 +166,16 @@ theorem setup_of_hyp {t : Tree K V} {puts : List (K × V)} {reads : List (Op K V
       · have := hpw j i hlj hli hgt
         rw [hvi, hvj] at this
         exact fun e => this (h.sw.eq_symm e)
-    · exact (h.readers o hm).2 (k, v) (List.mem_of_getElem? hpi)
+    · exact h.searchKeys o hm hsr (k, v) (List.mem_of_getElem? hpi)
+  · intro i j hij k v o hoi hoj hns y hy idx hlt hin hnear
+    have hpi := goroutines_put_mem hr hoi
+    rcases goroutines_get hoj with ⟨q, hq, rfl⟩ | ⟨_, hm⟩
+    · simp [Op.isSearch] at hns
+    · exact h.rangeKeys o hm hns (k, v) (List.mem_of_getElem? hpi) _ (hy.key_mem (List.getElem_mem hlt)) hin hnear
+  · intro i op ho hns
+    rcases goroutines_get ho with ⟨q, hq, rfl⟩ | ⟨_, hm⟩
+    · simp [Op.isSearch] at hns
+    · exact ⟨h.rangeWF op hm hns, h.rangeInv ⟨op, hm, hns⟩⟩
 
 /-- the sequential result is the ideal sorted map's: `sput` for every Put, in the order given -/
 theorem putAll_refines (hc : StrictWeak cmp) : ∀ (ps : List (K × V)) (t t' : Tree K V), WF cmp t →
